@@ -1,4 +1,4 @@
-//@@ unit props=C02,C16,C17,C20,C14,C10,C06 rlimit=300
+//@@ unit props=C02,C16,C17,C20,C14,C10,C06
 // Unit xlswb: the record dispatch `Xls::parse_workbook` of src/xls.rs (verbatim text, one 220-line function).
 //
 // What is under contract here is the WIRING: which record id reaches which record walker, with which arguments, in which order the
@@ -10,13 +10,32 @@
 // xlsrec / xlsstr / range / cfb / formats / xlsf.
 //
 // Specification (from [MS-XLS] 2.1.4, 2.1.7.20 and the property texts):
-//   recs(s)             the records of the substream that starts at s, up to (excluding) its EOF record 0x000A
-//   g_fold(recs, ..)    meaning of the workbook-globals substream: code page / BIFF version in force, BoundSheet8 list in stream order,
-//                       FORMAT table, XF list, SST
-//   has_1904(recs)      a Date1904 record with value 1 occurs
-//   fp(recs)            the substream carries a FILEPASS record at a legal position (only BOF / WriteProtect before it)
-//   s_fold(recs, cx)    meaning of a sheet substream: cells / formulas / merged regions as the concatenation, in record order, of each
-//                       record's contribution according to the dispatch table; fmla_pos = cell of the last FORMULA record
+//   recs(s)                 the records of the substream that starts at s, up to (excluding) its EOF record 0x000A
+//   g_fold(recs, ..)        meaning of the workbook-globals substream: code page / BIFF version in force, BoundSheet8 list in stream
+//                           order, FORMAT table, XF list, SST;  has_1904(recs): a Date1904 record with value 1 occurs
+//   fp(recs)                the substream carries a FILEPASS record at a legal position (only BOF / WriteProtect before it)
+//   cells_of / formulas_of / merges_of / fmla_pos_of (recs, ctx)
+//                           meaning of a sheet substream: cells / formulas / merged regions as the concatenation, in record order, of
+//                           each record's contribution according to the dispatch table (`contrib`); cell of the last FORMULA record
+//   model(list, stream)     which substream (stream[lbPlyPos..]) is stored under which sheet name
+//
+// Clauses: C20.filepass_is_password_error (+ weak form filepass_nonzero_type_.., converse password_only_if_filepass),
+//   C16.sheets_in_boundsheet_order, sheet_positions_and_names, encoding_and_biff_in_force, date1904_flag, one_entry_per_sheet_name,
+//   sheet_substream_at_boundsheet_position, stored_under_the_boundsheet_name, C10/C16.xf_formats_resolved (+ format/xf_records_collected),
+//   C02.sst_wired, dispatch_cells (+ one labelled assertion per record id: dispatch_number, _rk, _mulrk, _label, _labelsst, _boolerr,
+//   _string_of_preceding_formula, _formula_cached_value, unknown_ids_contribute_nothing), formula_string_position, cells_per_sheet,
+//   C14.formulas_at_cells, dispatch_formula_text_at_cell, sheet_names_for_3d_references, formulas_per_sheet,
+//   C17.merge_regions_appended, dispatch_mergecells, merge_regions_per_sheet; implicit obligations (entry point) -> C06.
+//
+// Declared rewrites of real code (all logged): r4 (`format!` -> opaque string, two sites: the "Unrecognised formula" fallback text and the
+//   `{sh}!{f}` prefix of defined names -- neither is pinned down here), r6 on the two `for record in records` loops, R2m `mutparams`
+//   (names the entry values of `mut reader`, `mut cfb`), and three ad-hoc rewrites forced by Verus limitations: `or_else(|_| ..)` capturing
+//   `&mut` variables, and the two `.map(closure).collect()` chains inside this GENERIC impl (vstd's map/collect specification is not applied
+//   there; repro: `fn f<RS>(xfs: Vec<u16>, r: RS) { let g = xfs@; let v: Vec<u32> = xfs.into_iter().map(|x| -> (r: u32) ensures r == h(x) { hh(x) }).collect();
+//   assert(v@.len() == g.len()); }` fails, the same body in a non-generic fn verifies). The feature `picture` is off in the verified
+//   configuration: the verus! macro accepts the `#[cfg(feature = "picture")]` statements and match arm as they stand (nothing dropped).
+// Not pinned down: the defined-name list (`metadata.names`, the Lbl arm and the `defined_names` closure chain) and the XTI table -- they
+//   are existentially quantified in C14.formulas_per_sheet; `pictures`.
 #![feature(allocator_api)]
 #![allow(unused_imports, dead_code, unused_variables, unused_mut, unused_assignments, unexpected_cfgs, deprecated)]
 use vstd::prelude::*;
@@ -393,6 +412,14 @@ pub open spec fn fp(rs: Seq<RecV>) -> bool
 {
     if rs.len() == 0 { false } else if rs[0].typ == 0x002F { true } else if before_filepass_ok(rs[0]) { fp(rs.skip(1)) } else { false }
 }
+/// weak form of `fp` (kept so that every OTHER break of the FILEPASS handling is still caught while finding xlswb/C20 is open):
+/// the FILEPASS record at the legal position has a non-zero first 16-bit field (BIFF8: wEncryptionType 1 = RC4 / CryptoAPI; BIFF5: key != 0)
+pub open spec fn fp_nonzero(rs: Seq<RecV>) -> bool
+    decreases rs.len()
+{
+    if rs.len() == 0 { false } else if rs[0].typ == 0x002F { rs[0].data.len() >= 2 && le16(rs[0].data) != 0 }
+    else if before_filepass_ok(rs[0]) { fp_nonzero(rs.skip(1)) } else { false }
+}
 /// a FILEPASS record occurs somewhere
 pub open spec fn any_fp(rs: Seq<RecV>) -> bool { exists|i: int| 0 <= i < rs.len() && (#[trigger] rs[i]).typ == 0x002F }
 
@@ -440,6 +467,10 @@ pub open spec fn contrib(v: RecV, fpos: (u32, u32), cc: CCtx) -> Seq<Cell<Data>>
     else if v.typ == 0x00BD { mulrk_cells(d, cc.formats, cc.is_1904) }                                            // MULRK
     else if is_formula(v) { match formula_value(d.subrange(6, 14)) { Some(Some(val)) => seq![Cell::mk(formula_pos(d), val)], _ => Seq::empty() } }  // FORMULA: cached value
     else { Seq::empty() }
+}
+/// record ids of the sheet dispatch table (0x0200 Dimensions only sizes a buffer; 0x000A EOF ends the sheet)
+pub open spec fn dispatched(t: int) -> bool {
+    t == 0x0203 || t == 0x0204 || t == 0x0205 || t == 0x0207 || t == 0x027E || t == 0x00FD || t == 0x00BD || t == 0x00E5 || t == 0x0006 || t == 0x000A
 }
 /// the cells of a sheet substream: concatenation, in record order, of each record's contribution
 pub open spec fn cells_of(rs: Seq<RecV>, cc: CCtx) -> Seq<Cell<Data>>
@@ -555,6 +586,8 @@ let stream = (match \g<1> { Ok(__v) => Ok(__v), Err(_) => \g<2> })?;
     ensures
         //# C20.filepass_is_password_error
         wb_stream(__p_cfb, __p_reader) matches Some(s) && fp(recs(s)) && codepage_known(old(self).options.force_codepage) ==> res matches Err(XlsError::Password),
+        //# C20.filepass_nonzero_type_is_password_error
+        wb_stream(__p_cfb, __p_reader) matches Some(s) && fp_nonzero(recs(s)) && codepage_known(old(self).options.force_codepage) ==> res matches Err(XlsError::Password),
         //# C20.password_only_if_filepass
         res matches Err(XlsError::Password) ==> wb_stream(__p_cfb, __p_reader) matches Some(s) && any_fp(recs(s)),
         //# C16.workbook_stream_missing_is_error
@@ -590,9 +623,12 @@ let stream = (match \g<1> { Ok(__v) => Ok(__v), Err(_) => \g<2> })?;
     let ghost mut cur: Seq<u8> = s0;
 //@@ loop 0
                 invariant_except_break
+                    //# C16.globals_records_until_eof
                     recs(s0) == done + recs(__it0.s()),
                     //# C20.filepass_is_password_error
                     fp(recs(s0)) ==> fp(recs(__it0.s())),
+                    //# C20.filepass_nonzero_type_is_password_error
+                    fp_nonzero(recs(s0)) ==> fp_nonzero(recs(__it0.s())),
                 invariant
                     cur == __it0.s(),
                     wb_stream(__p_cfb, __p_reader) == Some(s0),
@@ -612,8 +648,9 @@ let stream = (match \g<1> { Ok(__v) => Ok(__v), Err(_) => \g<2> })?;
                     //# C16.date1904_flag
                     d1904_legal(done) ==> self.is_1904 == (d0 || has_1904(done)),
                 ensures
+                    //# C16.globals_records_until_eof
                     recs(s0) == done,
-                    !fp(recs(s0)),
+                    !fp(recs(s0)), !fp_nonzero(recs(s0)),
                 decreases __it0.s().len(),
 //@@ after /let mut r = record\?;/
                 broadcast use axiom_from_cfb;
@@ -634,7 +671,7 @@ let stream = (match \g<1> { Ok(__v) => Ok(__v), Err(_) => \g<2> })?;
                     }
                     cur = __it0.s();
                 }
-//@@ replace /self\.formats = xfs\s*\.into_iter\(\)\s*\.map\(\|fmt\| (match formats\.get\(&fmt\) \{.*?\n\s*\})\)\s*\.collect\(\);/ Verus limitation (probed, minimal repro in the report): vstd's specification of Iterator::map + collect is not applied to a closure inside a GENERIC impl (`impl<RS: Read + Seek>`), although the same statement verifies in a non-generic function. `v.into_iter().map(|x| E).collect::<Vec<_>>()` is rewritten to its documented meaning (core::iter::Map, FromIterator for Vec): a new Vec holding E for every element of v in order. The closure body E is re-inserted verbatim (\g<1>).
+//@@ replace /self\.formats = xfs\s*\.into_iter\(\)\s*\.map\(\|fmt\| (.*?)\)\s*\.collect\(\);/ Verus limitation (probed, minimal repro in the report): vstd's specification of Iterator::map + collect is not applied to a closure inside a GENERIC impl (`impl<RS: Read + Seek>`), although the same statement verifies in a non-generic function. `v.into_iter().map(|x| E).collect::<Vec<_>>()` is rewritten to its documented meaning (core::iter::Map, FromIterator for Vec): a new Vec holding E for every element of v in order. The closure body E is re-inserted verbatim (\g<1>).
 self.formats = { let ghost __xs = xfs@; let ghost __fm = formats@; let mut __out: Vec<CellFormat> = Vec::new();
             for fmt in __itx: xfs
                 invariant
@@ -648,12 +685,13 @@ self.formats = { let ghost __xs = xfs@; let ghost __fm = formats@; let mut __out
             }
             proof { assert(__xs.take(__xs.len() as int) =~= __xs); }
             __out };
-//@@ replace /let fmla_sheet_names = sheet_names\s*\.iter\(\)\s*\.map\(\|\(_, n\)\| (n\.clone\(\))\)\s*\.collect::<Vec<_>>\(\);/ same Verus limitation and the same rewrite of `.iter().map(|(_, n)| E).collect::<Vec<_>>()`; E (`n.clone()`) is re-inserted verbatim (\g<1>)
+//@@ replace /let fmla_sheet_names = sheet_names\s*\.iter\(\)\s*\.map\(\|\(_, n\)\| (.*?)\)\s*\.collect::<Vec<_>>\(\);/ same Verus limitation and the same rewrite of `.iter().map(|(_, n)| E).collect::<Vec<_>>()`; E (`n.clone()`) is re-inserted verbatim (\g<1>)
 let fmla_sheet_names = { let mut __out: Vec<String> = Vec::new();
             for __e in __ity: sheet_names.iter()
                 invariant
                     __ity.seq().len() == sheet_names@.len(),
                     forall|i: int| 0 <= i < sheet_names@.len() ==> *(#[trigger] __ity.seq()[i]) == sheet_names@[i],
+                    __out@.len() == __ity.index@,
                     //# C14.sheet_names_for_3d_references
                     sviews(__out@) == name_views(sheet_names@.take(__ity.index@ as int)),
             {
@@ -683,7 +721,7 @@ let fmla_sheet_names = { let mut __out: Vec<String> = Vec::new();
 //@@ loop 1 it
                 invariant
                     it.seq() == names0,
-                    wb_stream(__p_cfb, __p_reader) == Some(s0), !fp(recs(s0)), s0 == stream@,
+                    wb_stream(__p_cfb, __p_reader) == Some(s0), !fp(recs(s0)), !fp_nonzero(recs(s0)), s0 == stream@,
                     cc == (CCtx { formats: self.formats@, is_1904: self.is_1904, strings: strings@, enc: encoding, biff: biff }),
                     fc == (FCtx { names: sviews(fmla_sheet_names@), dn: defined_names@, xtis: xtis@, enc: encoding }),
                     sheets_dom(sheets@, names0.take(it.index@ as int), s0),
@@ -698,13 +736,18 @@ let fmla_sheet_names = { let mut __out: Vec<String> = Vec::new();
             let ghost sub = sh@;
             let ghost mut sdone: Seq<RecV> = Seq::empty();
             let ghost mut scur: Seq<u8> = sub;
-            proof { assert(names0[k] == (pos, name)); assert(sub =~= sub_at(s0, pos)); }
+            proof {
+                assert(names0[k] == (pos, name));
+                //# C16.sheet_substream_at_boundsheet_position
+                assert(sub =~= sub_at(s0, pos));
+            }
 //@@ loop 2
                 invariant_except_break
+                    //# C02.sheet_records_until_eof
                     recs(sub) == sdone + recs(__it2.s()),
                 invariant
                     scur == __it2.s(),
-                    wb_stream(__p_cfb, __p_reader) == Some(s0), !fp(recs(s0)),
+                    wb_stream(__p_cfb, __p_reader) == Some(s0), !fp(recs(s0)), !fp_nonzero(recs(s0)),
                     cc == (CCtx { formats: self.formats@, is_1904: self.is_1904, strings: strings@, enc: encoding, biff: biff }),
                     fc == (FCtx { names: sviews(fmla_sheet_names@), dn: defined_names@, xtis: xtis@, enc: encoding }),
                     //# C17.merge_regions_appended
@@ -716,12 +759,15 @@ let fmla_sheet_names = { let mut __out: Vec<String> = Vec::new();
                     //# C14.formulas_at_cells
                     fm(formulas@, formulas_of(sdone, fc)),
                 ensures
+                    //# C02.sheet_records_until_eof
                     recs(sub) == sdone,
                 decreases __it2.s().len(),
 //@@ after /let r = record\?;/
                 let ghost v = r.v();
                 let ghost sdone_in = sdone;
                 let ghost cells_in = cells@;
+                let ghost formulas_in = formulas@;
+                let ghost merges_in = merge_cells@;
                 proof {
                     lemma_recs_step(scur);
                     if v.typ != 0x000A {
@@ -734,6 +780,37 @@ let fmla_sheet_names = { let mut __out: Vec<String> = Vec::new();
                     axiom_option_items::<Cell<Data>>(label_cell(v.data, cc.enc, cc.biff)->Some_0);
                     axiom_option_items::<Cell<Data>>(labelsst_cell(v.data, cc.strings)->Some_0);
                 }
+//@@ after /_ => \(\),\s*\}/#1of2
+                proof {
+                    let fpos = fmla_pos_of(sdone_in);
+                    //# C02.dispatch_number
+                    assert(v.typ == 0x0203 ==> cells@ == cells_in + contrib(v, fpos, cc));
+                    //# C02.dispatch_label
+                    assert(v.typ == 0x0204 ==> cells@ == cells_in + contrib(v, fpos, cc));
+                    //# C02.dispatch_boolerr
+                    assert(v.typ == 0x0205 ==> cells@ == cells_in + contrib(v, fpos, cc));
+                    //# C02.dispatch_string_of_preceding_formula
+                    assert(v.typ == 0x0207 ==> cells@ == cells_in + contrib(v, fpos, cc));
+                    //# C02.dispatch_rk
+                    assert(v.typ == 0x027E ==> cells@ == cells_in + contrib(v, fpos, cc));
+                    //# C02.dispatch_labelsst
+                    assert(v.typ == 0x00FD ==> cells@ == cells_in + contrib(v, fpos, cc));
+                    //# C02.dispatch_mulrk
+                    assert(v.typ == 0x00BD && mulrk_wf(v.data) ==> cells@ == cells_in + contrib(v, fpos, cc));
+                    //# C02,C14.dispatch_formula_cached_value
+                    assert(is_formula(v) ==> cells@ == cells_in + contrib(v, fpos, cc));
+                    //# C14.dispatch_formula_text_at_cell
+                    assert(is_formula(v) ==> formulas@.len() == formulas_in.len() + 1 && formulas@.last().p() == formula_pos(v.data) && fmla_pos == formula_pos(v.data));
+                    //# C17.dispatch_mergecells
+                    assert(v.typ == 0x00E5 && merge_wf(v.data) ==> merge_cells@ == merges_in + merge_regions(v.data));
+                    //# C02.unknown_ids_contribute_nothing
+                    assert(!dispatched(v.typ) ==> cells@ == cells_in && formulas@ == formulas_in && merge_cells@ == merges_in && fmla_pos == fpos);
+                }
+//@@ before /cells\.reserve\(/
+                        // a cell record takes at least 6 bytes of the stream (RkRec of a MULRK run), so a reservation of more cells than the
+                        // stream has bytes is out of proportion to the input (each reserved Cell<Data> is 40 bytes)
+                        //# C06.reserve_proportional_to_input
+                        assert(rows as int * cols as int <= stream@.len());
 //@@ before /sheets\.insert\(/
             proof {
                 axiom_string_obeys_cmp();
@@ -747,16 +824,20 @@ let fmla_sheet_names = { let mut __out: Vec<String> = Vec::new();
                 let m0 = model(names0.take(k), s0);
                 let m1 = model(names0.take(k + 1), s0);
                 assert(m1 == m0.insert(name, sub));
+                //# C16.stored_under_the_boundsheet_name
                 assert(sheets@ == sheets_in.insert(name, sheets@[name]));
+                //# C14.formulas_stored_under_sheet_name
                 assert(sheets@[name].formula == sparse_range(fs_k));
                 assert forall|n: String| #[trigger] m1.contains_key(n) implies
                     exists|fs: Seq<Cell<String>>| fm(fs, formulas_of(recs(m1[n]), fc)) && sheets@[n].formula == #[trigger] sparse_range(fs) by {
                     if n == name { assert(fm(fs_k, formulas_of(recs(m1[n]), fc)) && sheets@[n].formula == sparse_range(fs_k)); }
                     else { assert(m0.contains_key(n)); assert(sheets@[n] == sheets_in[n]); }
                 }
+                //# C17.merge_regions_stored_under_sheet_name
                 assert forall|n: String| #[trigger] m1.contains_key(n) && merge_legal(recs(m1[n])) implies sheets@[n].merge_cells@ == merges_of(recs(m1[n])) by {
                     if n != name { assert(m0.contains_key(n)); assert(sheets@[n] == sheets_in[n]); }
                 }
+                //# C02.cells_stored_under_sheet_name
                 assert forall|n: String| #[trigger] m1.contains_key(n) && mulrk_legal(recs(m1[n])) implies sheets@[n].range == sparse_range(cells_of(recs(m1[n]), cc)) by {
                     if n != name { assert(m0.contains_key(n)); assert(sheets@[n] == sheets_in[n]); }
                 }
@@ -772,6 +853,21 @@ let fmla_sheet_names = { let mut __out: Vec<String> = Vec::new();
         }
 //@@ end
 //@@ endimpl
+
+// ---- witnesses: every `requires` of this unit is satisfiable
+proof fn witness_requires() {
+    // Range::from_sparse: rows_sorted -- no cells, or one cell
+    assert(rows_sorted(Seq::<Cell<Data>>::empty()));
+    let c = Cell::<Data>::mk((3u32, 1u32), Data::Empty);
+    assert(rows_sorted(seq![c]));
+    // read_unicode_string_no_cch: buf@.len() > *len -- a 1-character compressed name: flags byte + 1 byte, len 1
+    let buf = seq![0u8, 0x41u8];
+    assert(buf.len() > 1);
+    // <[T]>::chunks: n != 0 -- the only call site passes 6
+    assert(6usize != 0);
+    // read_u16 / read_i16 (common/bytes.rs): a 2-byte slice
+    assert(seq![1u8, 0u8].len() >= 2);
+}
 
 } // verus!
 fn main() {}
